@@ -9,6 +9,7 @@ import (
 	"os"
 	"os/exec"
 	"path/filepath"
+	"reflect"
 	"sort"
 	"strings"
 	"sync"
@@ -45,6 +46,7 @@ type c08Input struct {
 	FileSeed uint64 `json:"file_seed,omitempty"`
 	AllowCsd bool   `json:"allow_csd,omitempty"`
 	BE       bool   `json:"big_endian,omitempty"`
+	OverLong bool   `json:"over_long,omitempty"` // strings / arrays longer than the profile length, invalid UTF-8, NUL (Encode truncates or fails)
 	Origin   string `json:"origin,omitempty"`
 	data     []byte
 }
@@ -65,10 +67,79 @@ type c08Obs struct {
 }
 
 func c08GenFile(in c08Input) *fileCase {
-	cfg := &fileGenCfg{inDomain: true, allowCsd: in.AllowCsd, maxPerSlt: 5}
+	cfg := &fileGenCfg{inDomain: !in.OverLong, allowCsd: in.AllowCsd, maxPerSlt: 5}
 	fc := genFile(newRng(in.FileSeed), cfg, genStats{})
 	fc.BE = in.BE
+	// deterministic in the seed: most Files name a product (so that Files
+	// share a populated string field); over-long Files get strings and arrays
+	// stretched beyond the profile length (Encode cuts them)
+	rg := newRng(in.FileSeed ^ 0x5bd1e995)
+	if fc.File.FileId.ProductName == "" && rg.chance(2, 3) {
+		fc.File.FileId.ProductName = "p" + string(rune('a'+rg.intn(26)))
+	}
+	if in.OverLong {
+		c08Stretch(fc.File, rg)
+	}
 	return fc
+}
+
+// c08Stretch lengthens populated strings and arrays of the File's messages
+// beyond the length the profile gives their field.
+func c08Stretch(f *fit.File, rg *rng) {
+	stretch := func(v reflect.Value) {
+		if v.Kind() == reflect.Ptr {
+			if v.IsNil() {
+				return
+			}
+			v = v.Elem()
+		}
+		if v.Kind() != reflect.Struct {
+			return
+		}
+		mn := uint16(fit.VerifGetGlobalMesgNum(v.Type()))
+		for i := 0; i < v.NumField(); i++ {
+			fv := v.Field(i)
+			if !fv.CanSet() {
+				continue
+			}
+			pf := pfieldBySindex(mn, i)
+			if pf == nil {
+				continue
+			}
+			L := int(pf.Length)
+			switch {
+			case fv.Kind() == reflect.String && fv.Len() > 0 && rg.chance(1, 2):
+				b := []byte(fv.String())
+				for n := L + rg.intn(30); len(b) <= n; {
+					b = append(b, byte('a'+rg.intn(26)))
+				}
+				fv.SetString(string(b))
+			case fv.Kind() == reflect.Slice && fv.Len() > 0 && fv.Type().Elem().Kind() != reflect.String && rg.chance(1, 3):
+				for n := L + 1 + rg.intn(8); fv.Len() < n && fv.Len() < 255; {
+					fv.Set(reflect.Append(fv, fv.Index(rg.intn(fv.Len()))))
+				}
+			}
+		}
+	}
+	stretch(reflect.ValueOf(&f.FileId))
+	stretch(reflect.ValueOf(f.FileCreator))
+	stretch(reflect.ValueOf(f.TimestampCorrelation))
+	cont := containerOf(f)
+	if !cont.IsValid() || cont.IsNil() {
+		return
+	}
+	cv := cont.Elem()
+	for i := 0; i < cv.NumField(); i++ {
+		fld := cv.Field(i)
+		switch fld.Kind() {
+		case reflect.Ptr:
+			stretch(fld)
+		case reflect.Slice:
+			for j := 0; j < fld.Len(); j++ {
+				stretch(fld.Index(j))
+			}
+		}
+	}
 }
 
 func c08Encode(fc *fileCase) (string, []byte) {
@@ -226,7 +297,7 @@ func runC08(args []string) int {
 		b, _ := hex.DecodeString(w.hx)
 		addStream(w.id, "witness", b)
 	}
-	nGen, nComp, nFiles := 40, 14, 12
+	nGen, nComp, nFiles := 40, 14, 24
 	if o.tier == "thorough" {
 		nGen, nComp, nFiles = 300, 60, 60
 	}
@@ -279,7 +350,10 @@ func runC08(args []string) int {
 	}
 	var files []c08Input
 	for i := 0; i < nFiles; i++ {
-		files = append(files, c08Input{ID: fmt.Sprintf("file%d", i), Kind: "file", FileSeed: rg.u64(), AllowCsd: i%3 == 0, BE: i%2 == 1})
+		// half of the Files carry strings and arrays longer than the profile
+		// length (Encode cuts them) and strings Encode rejects: legal inputs
+		// of the purity clause
+		files = append(files, c08Input{ID: fmt.Sprintf("file%d", i), Kind: "file", FileSeed: rg.u64(), AllowCsd: i%3 == 0, BE: i%2 == 1, OverLong: i%4 >= 2})
 	}
 	r.Extra["pool_streams"] = len(streams)
 	r.Extra["pool_files"] = len(files)
@@ -455,6 +529,10 @@ func runC08(args []string) int {
 				main, data := c08Encode(fc)
 				r.count(fmt.Sprintf("%d/%d", hi, idx), len(data) > 0)
 				r.hist("call_E")
+				if c.In.OverLong {
+					r.hist("call_E_over_long_file")
+				}
+				r.hist("encode_" + main[:5])
 				if main != base.Main {
 					rep := map[string]interface{}{"history": hs[:idx+1], "failing_index": idx, "part": "bytes", "expected_fresh_process": clip(base.Main, 3000), "observed_in_history": clip(main, 3000)}
 					r.specFail("encode_history", fmt.Sprintf("Encode of %s (call %d of a history) wrote bytes different from the same call made first in a fresh process\n    fresh  : %.300s\n    history: %.300s",
